@@ -60,6 +60,9 @@ pub unsafe fn verif_event(kind: u32, a: u64, b: u64) {
     }
 }
 
+pub unsafe fn verif_heap_live() -> u64 { live_tracked().0 as u64 }
+pub unsafe fn verif_heap_bytes() -> u64 { live_tracked().1 as u64 }
+
 pub struct Injected;
 
 pub unsafe fn verif_panic() {
